@@ -100,6 +100,16 @@ def make_tree(root, rng, variant):
     files["_underscore_dir/u.go"] = "package u\n\nfunc InUnderscoreDir() int { return 1 }\n"
     must.add("_underscore_dir/u.go")
     # (a file= query loads it although `./...` patterns skip directories starting with _)
+    # standalone build-ignored programs: each loads as the ad-hoc package "command-line-arguments"
+    files["tools/gena/main.go"] = "//go:build ignore\n\npackage main\n\nfunc main() {\n\tfor i := 0; i < 3; i++ {\n\t\tprintln(i)\n\t}\n}\n"
+    files["tools/genb/main.go"] = ("//go:build ignore\n\npackage main\n\nimport \"os\"\n\nfunc main() {\n\tif len(os.Args) > 2 {\n"
+                                   "\t\tos.Exit(3)\n\t}\n\tprintln(\"b\")\n}\n")
+    must |= {"tools/gena/main.go", "tools/genb/main.go"}
+    # two nested modules that declare the same module path
+    for dn, bodyk in (("dup1", "return a*3 + 1"), ("dup2", "for a < 100 {\n\t\ta *= 2\n\t}\n\treturn a")):
+        files["nested/%s/go.mod" % dn] = "module example.com/dup\n\ngo 1.21\n"
+        files["nested/%s/run.go" % dn] = "package dup\n\nfunc Run(a int) int {\n\t%s\n}\n" % bodyk
+        must.add("nested/%s/run.go" % dn)
     if variant % 2 == 1:
         # an uncompilable package: every file of it is unanalysable
         files["broken/ok.go"] = "package broken\n\nfunc Fine() int { return 1 }\n"
@@ -165,6 +175,8 @@ def check(ctx):
                                     "msg": (e.get("error") or "")[:120]})
                 evs.append({"ev": "check", "tree": t, "target": tgt, "strict": strict, "exit": rc, "must": sorted(tmust),
                             "unanalysable": sorted(tbad), "nofuncs": tno, "oracle": oracle, "entries": entries})
+            if tgt == ".":
+                evs.append(selfscan(ctx, sfw, root, t, sorted(tmust - tbad), oracle_all))
             if tgt in (".", "a"):
                 db = os.path.join(ctx.scratch, "tree%d" % t, "sig.db")
                 if not os.path.exists(db):
@@ -194,9 +206,14 @@ def check(ctx):
         e = live[bad_i - 1]
         kinds = classify(e)
         replay = ctx.save_replay("%s_tree%d_%s" % (e["ev"], e["tree"], e["target"].replace("/", "_").replace(".", "dot")), {"event.json": e})
+        extra = ""
+        if e["ev"] == "selfscan":
+            got = {(a["fn"], a["sig"]) for a in e["alerts"] if a["conf"] == 1000000000}
+            miss = [x for x in e["expected"] if not any((x["fn"], sg) in got for sg in x["sigs"])]
+            extra = "; functions never alerted on their own signature: %s" % [(m["file"], m["fn"]) for m in miss][:6]
         fresh = ctx.violation("C16:%s:%s" % (e["ev"], ",".join(kinds)),
-                              "`sfw %s%s %s` (exit %s) violates %s" % (e["ev"], " --strict" if e.get("strict") else "", e["target"], e["exit"], kinds),
-                              replay)
+                              "`sfw %s%s %s` (exit %s) violates %s%s" % (e["ev"] if e["ev"] != "selfscan" else "scan", " --strict" if e.get("strict") else "",
+                                                                       e["target"], e["exit"], kinds, extra), replay)
         if fresh:
             break
         live = live[:bad_i - 1] + live[bad_i:]
@@ -219,7 +236,42 @@ def check(ctx):
     ]
 
 
+def short_name(f):
+    if f["kind"] == "method":
+        return "(%s).%s" % (f["recv"], f["name"])
+    return f["name"]
+
+
+def selfscan(ctx, sfw, root, t, files, oracle_all):
+    """Index every analysable file under a signature-name prefix of its own, then scan the tree."""
+    db = os.path.join(ctx.scratch, "tree%d" % t, "self.db")
+    bydir = {}
+    for i, rel in enumerate(files):
+        rc, out, err = run(sfw, ["index", "--name", "F%d" % i, "--db", db, rel], root)
+        if rc != 0:
+            raise vlib.Inconclusive("sfw index %s failed: %s" % (rel, err[-300:]))
+        bydir.setdefault(os.path.dirname(rel), []).append(i)
+    expected = []
+    for i, rel in enumerate(files):
+        for f in oracle_all[os.path.join(root, rel)]["funcs"]:
+            if f["kind"] == "lit" or f.get("generic") or f["name"] == "init":
+                continue
+            sn = short_name(f)
+            expected.append({"fn": sn, "file": rel, "sigs": ["F%d_%s" % (j, sn) for j in bydir[os.path.dirname(rel)]]})
+    rc, out, err = run(sfw, ["scan", "--no-sandbox", "--threshold", "0.99", "--db", db, "."], root)
+    alerts = []
+    try:
+        rep = json.loads(out)
+        for a in rep.get("alerts") or []:
+            alerts.append({"fn": a["matched_function"], "sig": a["signature_name"], "conf": int(round(a["confidence"] * 1e9))})
+    except Exception:
+        pass
+    return {"ev": "selfscan", "tree": t, "target": ".", "exit": rc, "expected": expected, "alerts": alerts}
+
+
 def classify(e):
+    if e["ev"] == "selfscan":
+        return ["function-not-scanned"]
     if e["ev"] == "scan":
         return ["scan-count"]
     kinds = []
